@@ -29,13 +29,29 @@ library idiom that is recognised carries its C++ precondition as an explicit err
  * assert(c) : `if c then ... else Err Precond`;  c ? a : b;  x /= k and x %= k for a positive
    literal k;  do { } while (c) / while / for loops are Fixpoints on fuel (only the functions that
    loop, or call one that does, take `fuel`).
+Two more units read the body of detail::format() and ToTM (coq/SourceFmtLoop.v, coq/SourceFmtTM.v):
+ * what a function obtains from code outside the translated subset is an explicit INPUT: `al = tz.lookup(tp)`
+   (al_cs : fields, al_offset, al_abbr = the C string al.abbr points to), `tm = ToTM(al)` (tm : tmrec),
+   `ToUnixSeconds(tp)`; the opaque parameters tz, tp may appear nowhere else.  FormatTM (strftime) and
+   ToWeek are ORACLE parameters (Section variables ext_FormatTM, ext_ToWeek); get_weekday / get_yearday are
+   the source-derived functions of Source64.v;
+ * std::string result: `result.append(p, n)` (substr / substr_w: every cell read must exist and, in the
+   scratch array, have been written), append("lit"), append(const char*) (cstr_ro), push_back,
+   std::string(first, last) (substr_pp), reserve (no effect);  std::isdigit(c) needs c in [-1, 255];
+   `char* bp;` has no value until assigned;  a switch whose cases end in break / return / continue is a
+   chain of tests on the value computed once;  `continue`;  x / y by a non-constant is div64;
+   `std::tm tm{}` is one variable per field, returned as a tmrec;
+ * (these two units only) a loop is emitted as <loop>_body, taking the loop itself as `self_`, plus the
+   Fixpoint that ties the knot, and big branches / the common continuation of an `if` whose branches
+   may both fall through are outlined into definitions <loop>_b<n> / <loop>_k<n> - so that the tie
+   proofs can treat one iteration, and each part of it, separately.
 Anything else makes the function 'untranslated' (previous output kept, fact recorded; not an
 alarm).  Honours VERIF_REPO.  Prints a one-line JSON status."""
 import json, os, re, sys
 
 sys.path.insert(0, os.path.dirname(__file__))
 from ast_translate import Untranslatable  # noqa: E402
-from ast_translate64 import walk, tystr, zl, TRANSPARENT, WIDTH  # noqa: E402
+from ast_translate64 import walk, tystr, zl, TRANSPARENT, WIDTH, ACCESSORS, enum_value  # noqa: E402
 import ast_translate_ptr as P  # noqa: E402
 from ast_translate_ptr import Fn, B, txt, rebound, mentions, strip, qt, is_charptr, isptr, bufof, path_of, fn_key, UWIDTH  # noqa: E402
 
@@ -43,10 +59,21 @@ UNITS = [
     ("src/time_zone_fixed.cc", ["Format02d", "Parse02d", "FixedOffsetFromName", "FixedOffsetToName", "FixedOffsetToAbbr"],
      "SourceFixed.v", "so_"),
     ("src/time_zone_format.cc", ["Format64", "Format02d", "FormatOffset"], "SourceFmtOut.v", "sg_"),
+    # the main loop of detail::format(); calls the functions of the unit above and ParseInt<int> of SourceFmtParse.v
+    ("src/time_zone_format.cc", ["format"], "SourceFmtLoop.v", "sl_"),
+    # ToTM: the struct tm fields; get_weekday / get_yearday are the functions of Source64.v (gen/ast_translate64.py)
+    ("src/time_zone_format.cc", ["ToTmWday", "ToTM"], "SourceFmtTM.v", "st_"),
 ]
+# functions of civil_time_detail.h translated by gen/ast_translate64.py into Source64.v: (Gallina name, C++ type)
+EXT64 = {"get_weekday": ("Source64.s64_get_weekday", r"^(cctz::detail::)?weekday \(const (cctz::detail::)?civil_second &\)( noexcept)?$"),
+         "get_yearday": ("Source64.s64_get_yearday", r"^int \(const (cctz::detail::)?civil_second &\)( noexcept)?$")}
+# which definition of an overloaded name is meant (regular expression on the function type)
+SIGNATURE = {"format": r"^std::string \(const std::string &, const time_point<cctz::seconds> &, const detail::femtoseconds &, const (cctz::)?time_zone &\)$"}
+TM_FIELDS = ["tm_sec", "tm_min", "tm_hour", "tm_mday", "tm_mon", "tm_year", "tm_wday", "tm_yday", "tm_isdst"]
 RESERVED = {"buf", "fuel", "at", "as", "in", "end", "fun", "fix", "let", "match", "with", "return", "exists", "forall", "then",
             "else", "if", "Set", "Prop", "Type", "where", "using", "rd", "wr", "rdw", "padd", "apadd", "pdiff", "blen", "alen",
-            "bind", "OK", "Err", "nth", "length", "repeat", "tt", "true", "false", "None", "Some", "rv_"}
+            "bind", "OK", "Err", "nth", "length", "repeat", "tt", "true", "false", "None", "Some", "rv_", "st_", "tm_wday",
+            "format", "fields", "tmrec", "fy", "fm", "fd", "fhh", "fmm", "fss", "substr", "cells", "c_str"} | set(TM_FIELDS)
 DUR_RE = re.compile(r"^(?:std::chrono::)?duration<long(?:, (?:std::)?ratio<(\d+)(?:, (\d+))?>)?>$")
 
 
@@ -97,16 +124,28 @@ def literal_bytes(n):
 
 
 class OFn(Fn):
-    def __init__(self, key, ast, known, prefix):
+    def __init__(self, key, ast, known, prefix, oracle_names=(), open_rec=False):
         super().__init__(key, ast, known, prefix)
+        self.open_rec = open_rec  # loops as <loop>_body (self_ : the loop itself) + a Fixpoint tying the knot; big branches outlined
+        self.outlines = 0
         self.needs_fuel = False
+        self.oracle_names = set(oracle_names)
+        self.loop_order = []
+        self.tm_locals = set()
+        self.recs = {}            # C++ record variable that is an INPUT -> {member: (term, kind)}
+        self.rec_inputs = {}      # ... -> the parameters that carry it
+        self.inputs = []          # [(parameter, Coq type)] created by abstracting external calls
+        self.ext_calls = {}       # name of an external pure call on inputs only -> parameter
+        self.oracles = set()      # oracle functions (Section variables) used
+        self.conts = 0
 
     # ------------------------------------------------------------ types of the generated variables
     def vtype(self, v):
-        return {"str": "list Z", "bool": "bool", "warr": "list (option Z)"}.get(self.kinds.get(v, "Z"), "Z")
+        return {"str": "list Z", "bool": "bool", "warr": "list (option Z)", "rec:fields": "fields",
+                "rec:tmrec": "tmrec"}.get(self.kinds.get(v, "Z"), "Z")
 
     def ret_type(self):
-        r = {"bool": "bool", "str": "list Z"}.get(self.ret_kind, "Z")
+        r = {"bool": "bool", "str": "list Z", "tmrec": "tmrec"}.get(self.ret_kind, "Z")
         return " * ".join([r] + [self.vtype(v) for v, _ in self.outs])
 
     def state_type(self, vs):
@@ -128,6 +167,39 @@ class OFn(Fn):
         name = "lit_" + "_".join(str(c) for c in codes) if codes else "lit_empty"
         self.tables[name] = list(codes)
         return name
+
+    @staticmethod
+    def core(n):
+        """through parentheses, casts, temporaries and elidable copy/move constructions"""
+        while True:
+            n = strip(n)
+            if n.get("kind") == "CXXConstructExpr" and len(n.get("inner", [])) == 1 \
+                    and re.search(r"\((const )?[\w:<>, ]+ &&?\)( noexcept)?$", n.get("ctorType", {}).get("qualType", "")) \
+                    and tystr(n.get("type", {})) == tystr(n["inner"][0].get("type", {})):
+                n = n["inner"][0]
+            else:
+                return n
+
+    @staticmethod
+    def outer(tail):
+        while tail[0] == "cont":
+            tail = tail[3]
+        return tail
+
+    def ext_sig(self, call):
+        """the parameter an external one-argument call is applied to, or None"""
+        a = self.core(call["inner"][1])
+        ref = a.get("referencedDecl", {})
+        return ref.get("name") if a.get("kind") == "DeclRefExpr" and ref.get("kind") == "ParmVarDecl" else None
+
+    def rec_member(self, n):
+        """al.offset / tm.tm_wday / al.cs : (record variable, member name) or None"""
+        n = strip(n)
+        if n.get("kind") == "MemberExpr" and not n.get("isArrow"):
+            b = strip(n["inner"][0])
+            if b.get("kind") == "DeclRefExpr" and b.get("referencedDecl", {}).get("name") in self.recs:
+                return b["referencedDecl"]["name"], n.get("name")
+        return None
 
     def var_named(self, n, scope):
         n = strip(n)
@@ -169,6 +241,17 @@ class OFn(Fn):
             v = n.get("referencedDecl", {}).get("name")
             if v in scope and self.kinds.get(v) == "warr":
                 return [], "0", "wptr:" + v                     # the array designates its first element
+        if k == "SynthTest":
+            return [], n["term"], "bool"                         # the label test of a switch case (see seq)
+        if k == "StringLiteral":
+            return [], "0", "tptr:" + self.table_of(n)          # a literal used as a const char*
+        if k == "MemberExpr":
+            rm = self.rec_member(n)
+            if rm is not None:
+                ent = self.recs[rm[0]].get(rm[1])
+                if ent is None or ent[1] == "rec:fields":
+                    raise Untranslatable("member %s of %s" % (rm[1], rm[0]))
+                return [], ent[0], ent[1]
         if k == "UnaryOperator":
             op = n["opcode"]
             if op in ("++", "--"):
@@ -209,6 +292,19 @@ class OFn(Fn):
                     if kd != self.kinds[v]:
                         raise Untranslatable("pointer into %s assigned from %s" % (arrof(self.kinds[v]), kd))
                     return b + [B("let %s := %s in\n" % (v, t), v)], v, kd
+            if op == "/" and strip(inner[1]).get("kind") != "IntegerLiteral":
+                w, sg = self.width(n)
+                if not sg:
+                    raise Untranslatable("unsigned division by a non-constant")
+                b1, t1, k1 = self.expr(inner[0], scope)
+                b2, t2, k2 = self.expr(inner[1], scope)
+                b1, t1 = self.order(b1, t1, b2)
+                if anyptr(k1) or anyptr(k2):
+                    raise Untranslatable("division of pointers")
+                x = self.fresh()
+                if w != 64:
+                    raise Untranslatable("int division by a non-constant")
+                return b1 + b2 + [B("do %s <- div64 %s %s ;;\n" % (x, self.as_z(t1, k1), self.as_z(t2, k2)))], x, "Z"
             if op in ("+", "-", "==", "!=", "<", "<=", ">", ">=") and any("*" in qt(x) or "[" in qt(x) for x in inner):
                 save = self.tmp                                   # an operand of pointer (or array) type
                 b1, t1, k1 = self.expr(inner[0], scope)
@@ -336,10 +432,24 @@ class OFn(Fn):
             if mname == "count" and len(inner) == 1 and dur_period(obj):
                 b, t, kd = self.expr(obj, scope)
                 return b, self.as_z(t, kd), "Z"
+            rm = self.rec_member(obj)
+            if mname in ACCESSORS and len(inner) == 1 and rm is not None and self.recs[rm[0]].get(rm[1], ("", ""))[1] == "rec:fields":
+                self.width(n)                                     # al.cs.year() ... : a field of the civil-time input
+                return [], "(%s %s)" % (ACCESSORS[mname], self.recs[rm[0]][rm[1]][0]), "Z"
             raise Untranslatable("member call " + str(mname))
         if k in ("CXXConstructExpr", "CXXTemporaryObjectExpr"):
             ct = n.get("ctorType", {}).get("qualType", "")
             if is_string_type(n):
+                if re.match(r"^void \(\)( noexcept.*)?$", ct) and not inner:
+                    return [], "(@nil Z)", "str"                 # std::string s;
+                if re.match(r"^void \(const char \*, const char \*, const std::allocator<char> &\)$", ct) and len(inner) == 3 \
+                        and inner[2].get("kind") == "CXXDefaultArgExpr":
+                    b1, t1, k1 = self.expr(inner[0], scope)     # std::string(first, last)
+                    b2, t2, k2 = self.expr(inner[1], scope)
+                    if not (isptr(k1) and isptr(k2) and bufof(k1) == bufof(k2)) or rebound(b1) or rebound(b2):
+                        raise Untranslatable("std::string(first, last) operands")
+                    x = self.fresh()
+                    return b1 + b2 + [B("do %s <- substr_pp %s %s %s ;;\n" % (x, bufof(k1), t1, t2))], x, "str"
                 if re.match(r"^void \(const char \*, const std::allocator<char> &\)$", ct) and len(inner) == 2 \
                         and inner[1].get("kind") == "CXXDefaultArgExpr":
                     a = strip(inner[0])
@@ -379,6 +489,29 @@ class OFn(Fn):
         args = inner[1:]
         if name == "zero" and not args and ref.get("kind") == "CXXMethodDecl" and dur_period(n):
             return [], "0", "Z"
+        if name in self.ext_calls and len(args) == 1 and self.ext_sig(n) in self.ext_calls[name]:
+            return [], self.ext_calls[name][self.ext_sig(n)], "Z"   # a pure external function of the inputs: its value is an input
+        if name in EXT64 and len(args) == 1 and re.match(EXT64[name][1], fty):
+            rm = self.rec_member(self.core(args[0]))
+            if rm is None or self.recs[rm[0]].get(rm[1], ("", ""))[1] != "rec:fields":
+                raise Untranslatable(name + " of something that is not the civil time of an input")
+            x = self.fresh()
+            return [B("do %s <- %s %s ;;\n" % (x, EXT64[name][0], self.recs[rm[0]][rm[1]][0]))], x, "Z"
+        if name == "isdigit" and len(args) == 1 and re.match(r"^int \(int\)", fty):
+            b, t, kd = self.expr(args[0], scope)
+            x = self.fresh()
+            return b + [B("do %s <- isdigit_chk %s ;;\n" % (x, self.as_z(t, kd)))], x, "bool"
+        if name == "ToWeek" and "ToWeek" in self.oracle_names and len(args) == 2 and re.match(r"^int \(const (cctz::detail::)?civil_day &, (cctz::detail::)?weekday\)$", fty):
+            a0 = self.core(args[0])
+            if a0.get("kind") == "CXXConstructExpr" and a0.get("inner"):
+                a0 = self.core(a0["inner"][0])                    # civil_day(al.cs): the alignment is part of the oracle
+            rm = self.rec_member(a0)
+            if rm is None or self.recs[rm[0]].get(rm[1], ("", ""))[1] != "rec:fields":
+                raise Untranslatable("ToWeek of something that is not the civil time of an input")
+            b, t, kd = self.expr(args[1], scope)
+            self.oracles.add("ToWeek")
+            x = self.fresh()
+            return b + [B("do %s <- ext_ToWeek %s %s ;;\n" % (x, self.recs[rm[0]][rm[1]][0], self.as_z(t, kd)))], x, "Z"
         if name == "equal" and len(args) == 3 and re.match(r"^bool \(const char \*, const char \*, ", fty):
             b1, t1, k1 = self.expr(args[0], scope)
             b2, t2, k2 = self.expr(args[1], scope)
@@ -420,7 +553,9 @@ class OFn(Fn):
             return b1 + b2 + b3 + [B("do '(%s, %s) <- copy_n_w %s %s %s %s %s ;;\n" % (x, arr, src, t1, self.as_z(t2, k2), arr, t3), arr)], x, k3
         key = fn_key(ref, self.known)
         info = self.known.get(key) if key else None
-        if info is None:
+        if info is None or "fuel" not in info:
+            if info is not None:
+                self.needs_fuel = True                            # a function translated by gen/ast_translate_ptr.py (its convention)
             return super().call(n, scope)                         # strchr, numeric_limits<>::min/max; anything else is refused there
         binds, terms, outvars = [], [], []
         bufarg, retarr = None, None
@@ -449,9 +584,12 @@ class OFn(Fn):
                 outvars.append(arrof(kd))
                 retarr = retarr or arrof(kd)
             elif pkind == "ptr:first":
-                if not isptr(kd):
+                if kd.startswith("tptr:"):
+                    bufarg = kd[5:]                               # a string literal: the table is the buffer
+                elif isptr(kd):
+                    bufarg = bufof(kd)
+                else:
                     raise Untranslatable("pointer argument of kind " + kd)
-                bufarg = bufof(kd)
                 terms.append(t)
             elif pkind == "ptr:own":
                 if not isptr(kd):
@@ -516,14 +654,26 @@ class OFn(Fn):
                                 got.add(v)
                 elif k == "CXXMemberCallExpr":
                     me = m["inner"][0]
-                    if me.get("kind") == "MemberExpr" and me.get("name") == "erase":
+                    if me.get("kind") == "MemberExpr" and me.get("name") in ("erase", "append", "push_back"):
                         v = strip(me["inner"][0]).get("referencedDecl", {}).get("name")
                         if v:
                             got.add(v)
+                if k == "CallExpr" and strip(m["inner"][0]).get("referencedDecl", {}).get("name") == "FormatTM" and len(m["inner"]) == 4:
+                    a = strip(m["inner"][1])
+                    if a.get("kind") == "UnaryOperator" and a.get("opcode") == "&":
+                        got.add(strip(a["inner"][0]).get("referencedDecl", {}).get("name"))
         return [v for v in scope if v in got]
 
     def used(self, stmts, scope):
         names = set(super().used(stmts, scope))
+        for st in stmts:
+            for m in walk(st):
+                if m.get("kind") == "DeclRefExpr" and m.get("referencedDecl", {}).get("name") in self.rec_inputs:
+                    names.update(self.rec_inputs[m["referencedDecl"]["name"]])
+                if m.get("kind") == "CallExpr":
+                    nm = strip(m["inner"][0]).get("referencedDecl", {}).get("name")
+                    if nm in self.ext_calls and len(m["inner"]) == 2:
+                        names.update(self.ext_calls[nm].values())
         for v in list(names):
             kd = self.kinds.get(v, "Z")
             if kd == "ptr":
@@ -534,12 +684,143 @@ class OFn(Fn):
                 names.add(arrof(kd))
         return [v for v in scope if v in names]
 
+    def walk_own(self, n):
+        """the nodes whose return / break / continue leave the statement n itself"""
+        if isinstance(n, dict):
+            yield n
+            if n.get("kind") in ("ForStmt", "WhileStmt", "DoStmt", "SwitchStmt"):
+                for m in walk(n):
+                    if m.get("kind") == "ReturnStmt" or (m.get("kind") == "ContinueStmt" and n.get("kind") == "SwitchStmt"):
+                        yield m
+                return
+            for c in n.get("inner", []):
+                yield from self.walk_own(c)
+
+    def always_escapes(self, stmts):
+        if stmts and stmts[-1].get("kind") == "ContinueStmt":
+            return True
+        return super().always_escapes(stmts)
+
+    def finish(self, tail, val):
+        return super().finish(self.outer(tail), val)
+
+    def outline(self, stmts, scope, tail, tag):
+        """(open_rec mode, inside a loop) the statements become a definition of their own, taking the loop (self_), fuel and
+           every variable in scope; returns the call"""
+        ot = self.outer(tail)
+        self.outlines += 1
+        name = "%s_%s%d" % (ot[1], tag, self.outlines)
+        self.loops.append(None)
+        idx = len(self.loops) - 1
+        body = self.seq(stmts, scope, tail)
+        self.loops[idx] = "Definition %s (self_ : %s) (fuel : nat) %s :=\n(*PRE*)%s.\n\n" % (
+            name, ot[5], " ".join("(%s : %s)" % (v, self.vtype(v)) for v in scope), body)
+        self.loop_order.append(idx)
+        return "%s self_ fuel %s" % (name, " ".join(scope))
+
+    def size(self, stmts):
+        return sum(1 for x in stmts for _ in walk(x))
+
+    def switch_groups(self, st):
+        """switch (e) { case a: case b: S...; break; ... }  ->  [([a, b], [S...])]; every group ends in break"""
+        body = st["inner"][-1]
+        if body.get("kind") != "CompoundStmt":
+            raise Untranslatable("switch body")
+        groups, labels, cur = [], None, None
+        for x in body.get("inner", []):
+            while x.get("kind") == "CaseStmt":
+                if cur:
+                    raise Untranslatable("fall-through between switch cases")
+                v = x["inner"][0]
+                if v.get("kind") != "ConstantExpr" or "value" not in v or len(x["inner"]) != 2:
+                    raise Untranslatable("case label")
+                labels = (labels or []) + [int(v["value"])]
+                cur = []
+                x = x["inner"][1]
+            if x.get("kind") == "DefaultStmt" or labels is None:
+                raise Untranslatable("switch with default or a statement before the first case")
+            if x.get("kind") == "BreakStmt":
+                groups.append((labels, cur))
+                labels, cur = None, None
+            else:
+                if any(m.get("kind") == "BreakStmt" for m in self.walk_own(x)):
+                    raise Untranslatable("break nested inside a switch case")
+                cur.append(x)
+                if x.get("kind") in ("ReturnStmt", "ContinueStmt"):          # the case leaves the switch without break
+                    groups.append((labels, cur))
+                    labels, cur = None, None
+        if labels is not None:
+            raise Untranslatable("last switch case does not end in break")
+        return groups
+
     # ------------------------------------------------------------ statements
     def seq(self, stmts, scope, tail):
         if not stmts:
+            if tail[0] == "cont":
+                return tail[1] if self.open_rec else "%s %s" % (tail[1], self.tup(tail[2]))
             return super().seq(stmts, scope, tail)
         st, rest = stmts[0], stmts[1:]
         k = st.get("kind")
+        if k == "ContinueStmt":
+            ot = self.outer(tail)
+            if ot[0] not in ("loop", "ploop"):
+                raise Untranslatable("continue inside a joined branch or outside a loop")
+            return ot[4]
+        if k == "BreakStmt":
+            return super().seq(stmts, scope, self.outer(tail))
+        if k == "SwitchStmt":
+            groups = self.switch_groups(st)
+            cb, ct, ck = self.expr(st["inner"][0], scope)
+            if anyptr(ck) or ck == "str":
+                raise Untranslatable("switch on a non-integer")
+            x = self.fresh()
+            chain = None
+            for labels, body in reversed(groups):
+                test = {"kind": "SynthTest", "term": "(%s)" % " || ".join("(%s =? %s)" % (x, zl(v)) for v in labels)}
+                node = {"kind": "IfStmt", "inner": [test, {"kind": "CompoundStmt", "inner": body}]}
+                if chain is not None:
+                    node["inner"].append(chain)
+                    node["hasElse"] = True
+                chain = node
+            head = txt(cb) + "let %s := %s in\n" % (x, self.as_z(ct, ck))
+            return head + self.seq(([chain] if chain else []) + rest, scope, tail)
+        if k == "IfStmt" and not st.get("hasVar") and self.open_rec and self.outer(tail)[0] in ("loop", "ploop") and tail[0] != "cont":
+            th = self.body_list(st["inner"][1])
+            el = self.body_list(st["inner"][2]) if st.get("hasElse") else []
+            esc_t, esc_e = self.always_escapes(th), self.always_escapes(el)
+            if (self.escapes(th) or self.escapes(el)) and (self.size(th) > 60 or self.size(el + rest) > 60):
+                cb, ct, ck = self.expr(st["inner"][0], scope)
+                if not esc_t and not esc_e and rest:
+                    # both branches may reach the statements after the if: those become one outlined continuation
+                    kcall = self.outline(rest, scope, tail, "k")
+                    sub = ("cont", kcall, [], tail)
+                    a, b = self.seq(th, scope, sub), self.seq(el, scope, sub)
+                else:
+                    ths = th if esc_t else th + rest
+                    els = el if esc_e else el + rest
+                    a = self.outline(ths, scope, tail, "b") if self.size(ths) > 60 else self.seq(ths, scope, tail)
+                    b = self.outline(els, scope, tail, "b") if self.size(els) > 60 else self.seq(els, scope, tail)
+                return "%sif %s then (\n%s\n) else (\n%s\n)" % (txt(cb), self.as_b(ct, ck), a, b)
+        if k == "IfStmt" and not st.get("hasVar"):
+            th = self.body_list(st["inner"][1])
+            el = self.body_list(st["inner"][2]) if st.get("hasElse") else []
+            if (self.escapes(th) or self.escapes(el)) and rest and not self.always_escapes(th) and not self.always_escapes(el) \
+                    and self.outer(tail)[0] in ("loop", "none") and sum(1 for x in rest for _ in walk(x)) > 60:
+                # both branches may reach the statements after the if: those are translated once, as a local continuation
+                vs = self.assigned(th + el, scope)
+                self.conts += 1
+                kn = "k%d_" % self.conts
+                cb, ct, ck = self.expr(st["inner"][0], scope)     # its side effects come before the continuation is formed
+                rest_text = self.seq(rest, scope, tail)
+                if not vs:
+                    fn = "fun (st_ : unit) =>\n%s" % rest_text
+                elif len(vs) == 1:
+                    fn = "fun (%s : %s) =>\n%s" % (vs[0], self.vtype(vs[0]), rest_text)
+                else:
+                    fn = "fun (st_ : %s) => let %s := st_ in\n%s" % (self.state_type(vs), self.pat(vs), rest_text)
+                sub = ("cont", kn, vs, tail)
+                return "%slet %s := %s in\nif %s then (\n%s\n) else (\n%s\n)" % (
+                    txt(cb), kn, fn, self.as_b(ct, ck), self.seq(th, scope, sub), self.seq(el, scope, sub))
         if k in TRANSPARENT and k != "ExprWithCleanups":
             return self.seq([st["inner"][-1]] + rest, scope, tail)
         if k == "ConditionalOperator":
@@ -559,6 +840,10 @@ class OFn(Fn):
                 if vd["kind"] != "VarDecl":
                     raise Untranslatable("declaration of " + vd["kind"])
                 name = vd["name"]
+                if name in self.recs:
+                    if tail[0] != "none":
+                        raise Untranslatable("input record declared inside a branch or loop")
+                    continue                                                 # an INPUT (see scan_inputs): nothing to compute
                 if name in sc or name in self.tables:
                     raise Untranslatable("shadowing declaration of " + name)
                 q = qt(vd)
@@ -566,6 +851,25 @@ class OFn(Fn):
                 if m and not vd.get("inner"):
                     self.kinds[name] = "warr"                               # char buf[N]; : N cells, none written yet
                     out += "let %s := repeat (@None Z) %s in\n" % (name, m.group(1))
+                    sc.append(name)
+                    continue
+                if re.match(r"^(std::)?tm$", q) and len(vd.get("inner", [])) == 1 and vd["inner"][0].get("kind") == "InitListExpr" \
+                        and all(e.get("kind") == "ImplicitValueInitExpr" for e in vd["inner"][0].get("inner", [])):
+                    if tail[0] != "none":
+                        raise Untranslatable("struct tm declared inside a branch or loop")
+                    self.local_outs[name] = "struct"                         # std::tm tm{}; : one variable per field, all zero
+                    self.tm_locals.add(name)
+                    for f in TM_FIELDS:
+                        self.kinds["%s_%s" % (name, f)] = "Z"
+                        out += "let %s_%s := 0 in\n" % (name, f)
+                        sc.append("%s_%s" % (name, f))
+                    continue
+                if re.match(r"^char \*$", q.strip()) and not vd.get("inner"):
+                    arrs = [v for v in sc if self.kinds.get(v) == "warr"]
+                    if len(arrs) != 1:
+                        raise Untranslatable("uninitialised char* with no unique array in scope")
+                    self.kinds[name] = "wptr:" + arrs[0]                     # char* bp; : no value yet (any use before an assignment errs)
+                    out += "let %s := (-1) in\n" % name
                     sc.append(name)
                     continue
                 if not vd.get("inner"):
@@ -598,8 +902,13 @@ class OFn(Fn):
         if k == "ReturnStmt":
             if not st.get("inner"):
                 raise Untranslatable("return without a value")
-            b, t, kd = self.expr(st["inner"][0], scope)
             rk = self.ret_kind
+            if rk == "tmrec":
+                v = self.core(st["inner"][0]).get("referencedDecl", {}).get("name")
+                if v not in self.tm_locals:
+                    raise Untranslatable("std::tm function returning something that is not a local struct tm")
+                return self.finish(tail, "(mkTM %s)" % " ".join("%s_%s" % (v, f) for f in TM_FIELDS))
+            b, t, kd = self.expr(st["inner"][0], scope)
             if rk == "bool":
                 t = self.as_b(t, kd)
             elif rk == "Z":
@@ -626,6 +935,69 @@ class OFn(Fn):
             if rebound(b1) or rebound(b2) or anyptr(k1) or anyptr(k2):
                 raise Untranslatable("erase() arguments")
             return txt(b1 + b2) + "do %s <- str_erase %s %s %s ;;\n" % (v, v, self.as_z(t1, k1), self.as_z(t2, k2)) + self.seq(rest, scope, tail)
+        if k == "CXXMemberCallExpr" and st["inner"][0].get("kind") == "MemberExpr" \
+                and st["inner"][0].get("name") in ("append", "push_back", "reserve"):
+            me, args = st["inner"][0], st["inner"][1:]
+            v = self.var_named(me["inner"][0], scope)
+            if v is None or self.kinds.get(v) != "str":
+                raise Untranslatable("%s() on something that is not a string variable" % me["name"])
+            go = lambda: self.seq(rest, scope, tail)
+            if me["name"] == "reserve" and len(args) == 1:
+                b, t, kd = self.expr(args[0], scope)
+                if rebound(b) or anyptr(kd):
+                    raise Untranslatable("reserve() argument")
+                return txt(b) + go()                                         # capacity only
+            if me["name"] == "push_back" and len(args) == 1:
+                b, t, kd = self.expr(args[0], scope)
+                if anyptr(kd) or kd == "str":
+                    raise Untranslatable("push_back of a non-character")
+                return txt(b) + "let %s := %s ++ [%s] in\n" % (v, v, self.as_z(t, kd)) + go()
+            if me["name"] == "append" and len(args) == 2:                    # append(p, n)
+                b1, t1, k1 = self.expr(args[0], scope)
+                b2, t2, k2 = self.expr(args[1], scope)
+                if rebound(b1) or rebound(b2) or anyptr(k2) or k2 == "str":
+                    raise Untranslatable("append(p, n) arguments")
+                x = self.fresh()
+                if iswptr(k1):
+                    rdr = "substr_w %s %s %s" % (arrof(k1), t1, self.as_z(t2, k2))
+                elif isptr(k1):
+                    rdr = "substr %s %s %s" % (bufof(k1), t1, self.as_z(t2, k2))
+                else:
+                    raise Untranslatable("append from " + k1)
+                return txt(b1 + b2) + "do %s <- %s ;;\nlet %s := %s ++ %s in\n" % (x, rdr, v, v, x) + go()
+            if me["name"] == "append" and len(args) == 1:
+                a = strip(args[0])
+                if a.get("kind") == "StringLiteral":                         # append("lit")
+                    codes = literal_bytes(a)
+                    codes = codes[:codes.index(0)] if 0 in codes else codes
+                    return "let %s := %s ++ %s in\n" % (v, v, self.lit_table(codes)) + go()
+                b, t, kd = self.expr(args[0], scope)
+                if rebound(b):
+                    raise Untranslatable("append() argument")
+                if kd == "str":
+                    return txt(b) + "let %s := %s ++ %s in\n" % (v, v, t) + go()
+                if isptr(kd):                                                # append(const char*): the C string at p
+                    x = self.fresh()
+                    return txt(b) + "do %s <- cstr_ro %s %s ;;\nlet %s := %s ++ %s in\n" % (x, bufof(kd), t, v, v, x) + go()
+                raise Untranslatable("append of " + kd)
+            raise Untranslatable("%s() form" % me["name"])
+        if k in ("ExprWithCleanups", "CallExpr"):
+            c = st
+            while c.get("kind") in TRANSPARENT:
+                c = c["inner"][-1]
+            if c.get("kind") == "CallExpr" and strip(c["inner"][0]).get("referencedDecl", {}).get("name") == "FormatTM" \
+                    and len(c["inner"]) == 4 and "FormatTM" in self.oracle_names:
+                a0, a1, a2 = c["inner"][1:]
+                a0 = strip(a0)
+                v = self.var_named(a0["inner"][0], scope) if a0.get("kind") == "UnaryOperator" and a0.get("opcode") == "&" else None
+                tmv = strip(a2).get("referencedDecl", {}).get("name")
+                if v is None or self.kinds.get(v) != "str" or self.kinds.get(tmv) != "rec:tmrec":
+                    raise Untranslatable("FormatTM arguments")
+                b, t, kd = self.expr(a1, scope)
+                if kd != "str" or rebound(b):
+                    raise Untranslatable("FormatTM format argument")
+                self.oracles.add("FormatTM")
+                return txt(b) + "let %s := %s ++ ext_FormatTM %s %s in\n" % (v, v, t, tmv) + self.seq(rest, scope, tail)
         if k in ("ForStmt", "WhileStmt", "DoStmt"):
             return self.loop(st, rest, scope, tail)
         return super().seq(stmts, scope, tail)
@@ -653,10 +1025,12 @@ class OFn(Fn):
         has_ret = any(m.get("kind") == "ReturnStmt" for x in pieces if x for m in walk(x))
         if has_ret:
             ro = [v for v in scope if v not in stv and (v in ro or v in [o for o, _ in self.outs])]
-        plain_loop = tail[0] == "fall"
+        ot = self.outer(tail)
+        plain_loop = ot[0] == "fall" or (self.open_rec and not has_ret)
         if plain_loop and has_ret:
             raise Untranslatable("return inside a loop inside a joined branch")
-        lname = "%s_loop%d" % (self.gname, len(self.loops) + 1)
+        self.nloops = getattr(self, "nloops", 0) + 1
+        lname = "%s_loop%d" % (self.gname, self.nloops if self.open_rec else len(self.loops) + 1)
         self.loops.append(None)
         idx = len(self.loops) - 1
         sc = list(scope)
@@ -670,7 +1044,9 @@ class OFn(Fn):
         cb, ct, ck = self.expr(cond, sc) if cond else ([], "true", "bool")
         if rebound(cb) - set(stv):
             raise Untranslatable("loop condition rebinds a non-state variable")
-        recur = "%s fuel %s" % (lname, " ".join(ro + stv))
+        rty = self.state_type(stv) if plain_loop else "option (%s) * (%s)" % (self.ret_type(), self.state_type(stv))
+        selfty = " -> ".join([self.vtype(v) for v in ro + stv] + ["res (%s)" % rty])
+        recur = ("self_ %s" if self.open_rec else lname + " fuel %s") % " ".join(ro + stv)
         if inc:
             ib, it, ik = self.expr(inc, sc)
             recur = txt(ib) + recur
@@ -678,22 +1054,28 @@ class OFn(Fn):
         mode = "ploop" if plain_loop else "loop"
         if k == "DoStmt":
             again = "%sif %s then (\n%s\n) else (\n%s\n)" % (txt(cb), self.as_b(ct, ck), recur, stop)
-            itxt = self.seq(bl, sc, (mode, lname, ro, stv, again))
+            itxt = self.seq(bl, sc, (mode, lname, ro, stv, again, selfty))
         else:
-            btxt = self.seq(bl, sc, (mode, lname, ro, stv, recur))
+            btxt = self.seq(bl, sc, (mode, lname, ro, stv, recur, selfty))
             itxt = "%s%sif %s then (\n%s\n) else (\n%s\n)" % (head, txt(cb), self.as_b(ct, ck), btxt, stop)
         sig = " ".join("(%s : %s)" % (v, self.vtype(v)) for v in ro + stv)
-        rty = self.state_type(stv) if plain_loop else "option (%s) * (%s)" % (self.ret_type(), self.state_type(stv))
-        self.loops[idx] = ("Fixpoint %s (fuel : nat) %s {struct fuel} : res (%s) :=\n  match fuel with\n  | O => Err Fuel\n  | S fuel =>\n%s\n  end.\n\n"
-                           % (lname, sig, rty, itxt))
+        if self.open_rec:
+            self.loops[idx] = ("Definition %s_body (self_ : %s) (fuel : nat) %s : res (%s) :=\n(*PRE*)%s.\n\n"
+                               "Fixpoint %s (fuel : nat) %s {struct fuel} : res (%s) :=\n  match fuel with\n  | O => Err Fuel\n"
+                               "  | S fuel => %s_body (%s fuel) fuel %s\n  end.\n\n"
+                               % (lname, selfty, sig, rty, itxt, lname, sig, rty, lname, lname, " ".join(ro + stv)))
+        else:
+            self.loops[idx] = ("Fixpoint %s (fuel : nat) %s {struct fuel} : res (%s) :=\n  match fuel with\n  | O => Err Fuel\n  | S fuel =>\n%s\n  end.\n\n"
+                               % (lname, sig, rty, itxt))
+        self.loop_order.append(idx)                     # an inner loop is complete, hence defined, before the loop around it
         call = "%s fuel %s" % (lname, " ".join(ro + stv))
         if plain_loop:
             return "do %s <- %s ;;\n%s" % (self.pat(stv), call, self.seq(rest, scope, tail))
         r = self.fresh()
         after = self.seq(rest, scope, tail)
-        if tail[0] == "loop":
-            got = "OK (Some rv_, %s)" % self.tup(tail[3])
-        elif tail[0] == "ploop":
+        if ot[0] == "loop":
+            got = "OK (Some rv_, %s)" % self.tup(ot[3])
+        elif ot[0] == "ploop":
             raise Untranslatable("returning loop inside a plain loop")
         else:
             got = "OK rv_"
@@ -709,10 +1091,61 @@ class OFn(Fn):
                 if dur_period(m) != (1, 1):
                     raise Untranslatable("cctz::seconds is " + t["desugaredQualType"])
 
+    def scan_inputs(self, body, params, scope):
+        """what the function obtains from code outside the translated subset becomes an explicit INPUT (a parameter):
+             const time_zone::absolute_lookup al = tz.lookup(tp);   ->  al_cs : fields, al_offset : Z, al_abbr : the C string
+             const std::tm tm = ToTM(al);                            ->  tm : tmrec
+             ToUnixSeconds(tp)                                       ->  ToUnixSeconds_tp : Z
+           (tz, tp are opaque parameters and may appear nowhere else)"""
+        def add(name, ty, kind):
+            params.append("(%s : %s)" % (name, ty))
+            scope.append(name)
+            self.kinds[name] = kind
+            self.inputs.append((name, ty))
+        allowed = set()
+        for st in body.get("inner", []):
+            if st.get("kind") != "DeclStmt":
+                continue
+            for vd in st.get("inner", []):
+                if vd.get("kind") != "VarDecl" or not vd.get("inner"):
+                    continue
+                init, q, v = self.core(vd["inner"][-1]), qt(vd), vd["name"]
+                if re.match(r"^const (cctz::)?time_zone::absolute_lookup$", q) and init.get("kind") == "CXXMemberCallExpr" \
+                        and init["inner"][0].get("name") == "lookup" and len(init["inner"]) == 2 \
+                        and strip(init["inner"][0]["inner"][0]).get("referencedDecl", {}).get("name") in self.opaque \
+                        and strip(init["inner"][1]).get("referencedDecl", {}).get("name") in self.opaque:
+                    add(v + "_cs", "fields", "rec:fields")
+                    add(v + "_offset", "Z", "Z")
+                    add(v + "_abbr", "list Z", "str")
+                    self.recs[v] = {"cs": (v + "_cs", "rec:fields"), "offset": (v + "_offset", "Z"), "abbr": ("0", "ptr:" + v + "_abbr")}
+                    self.rec_inputs[v] = [v + "_cs", v + "_offset", v + "_abbr"]
+                    allowed.update(id(m) for m in walk(vd))
+                elif re.match(r"^const (std::)?tm$", q) and init.get("kind") == "CallExpr" and len(init["inner"]) == 2 \
+                        and strip(init["inner"][0]).get("referencedDecl", {}).get("name") == "ToTM" \
+                        and strip(init["inner"][1]).get("referencedDecl", {}).get("name") in self.recs:
+                    add(v, "tmrec", "rec:tmrec")
+                    self.recs[v] = {f: ("(%s %s)" % (f, v), "Z") for f in TM_FIELDS}
+                    self.rec_inputs[v] = [v]
+                    allowed.update(id(m) for m in walk(vd))
+        for m in walk(body):
+            if m.get("kind") == "CallExpr" and len(m.get("inner", [])) == 2:
+                nm = strip(m["inner"][0]).get("referencedDecl", {}).get("name")
+                arg = self.ext_sig(m)
+                if nm == "ToUnixSeconds" and arg in self.opaque and WIDTH.get(tystr(m.get("type", {}))) == 64:
+                    pn = "%s_%s" % (nm, arg)
+                    if pn not in scope:
+                        add(pn, "Z", "Z")
+                    self.ext_calls.setdefault(nm, {})[arg] = pn
+                    allowed.update(id(x) for x in walk(m))
+        for m in walk(body):
+            if m.get("kind") == "DeclRefExpr" and m.get("referencedDecl", {}).get("name") in self.opaque and id(m) not in allowed:
+                raise Untranslatable("opaque parameter %s used outside the recognised external calls" % m["referencedDecl"]["name"])
+
     def translate(self):
         rename_reserved(self.ast)
         params, scope, sig, body = [], [], [], None
         self.first_warr = None
+        self.opaque = set()
         for c in self.ast.get("inner", []):
             if c["kind"] == "ParmVarDecl":
                 t, p = qt(c).strip(), c.get("name")
@@ -763,6 +1196,29 @@ class OFn(Fn):
                     params.append("(%s : bool)" % p)
                     scope.append(p)
                     sig.append((p, "bool"))
+                elif re.match(r"^const (detail::|cctz::detail::)?femtoseconds &$", t):
+                    self.kinds[p] = "Z"                                      # a duration: its count
+                    params.append("(%s : Z)" % p)
+                    scope.append(p)
+                    sig.append((p, "val"))
+                elif re.match(r"^(cctz::detail::|cctz::)?weekday$", t):
+                    self.kinds[p] = "Z"                                      # an enumerator: its value
+                    params.append("(%s : Z)" % p)
+                    scope.append(p)
+                    sig.append((p, "val"))
+                elif re.match(r"^const (cctz::)?time_zone::absolute_lookup &$", t):
+                    for nm, ty, kd in ((p + "_cs", "fields", "rec:fields"), (p + "_offset", "Z", "Z"), (p + "_is_dst", "bool", "bool"),
+                                       (p + "_abbr", "list Z", "str")):
+                        params.append("(%s : %s)" % (nm, ty))
+                        scope.append(nm)
+                        self.kinds[nm] = kd
+                    self.recs[p] = {"cs": (p + "_cs", "rec:fields"), "offset": (p + "_offset", "Z"), "is_dst": (p + "_is_dst", "bool"),
+                                    "abbr": ("0", "ptr:" + p + "_abbr")}
+                    self.rec_inputs[p] = [p + "_cs", p + "_offset", p + "_is_dst", p + "_abbr"]
+                    sig.append((p, "rec"))
+                elif re.match(r"^const (time_point<(cctz::)?seconds>|(cctz::)?time_zone) &$", t):
+                    self.opaque.add(p)                                       # only ever handed to the external calls of scan_inputs
+                    sig.append((p, "opaque"))
                 else:
                     self.width(c)
                     self.kinds[p] = "Z"
@@ -773,6 +1229,7 @@ class OFn(Fn):
                 body = c
         if body is None:
             raise Untranslatable("no body")
+        self.scan_inputs(body, params, scope)
         self.check_seconds()
         for m in walk(body):
             if m.get("kind") == "VarDecl" and tystr(m.get("type", {})) in WIDTH:
@@ -792,11 +1249,15 @@ class OFn(Fn):
             self.ret_kind = "str"
         elif rt in ("int", "long", "std::int_fast64_t", "std::int_fast32_t"):
             self.ret_kind = "Z"
+        elif rt == "std::tm":
+            self.ret_kind = "tmrec"
         else:
             raise Untranslatable("return type " + rt)
         term = self.seq(self.body_list(body), scope, ("none",))
-        pre = "".join("let %s := [%s] in\n" % (tn, "; ".join(zl(c) for c in cs)) for tn, cs in sorted(list(self.tables.items()) + list(self.itables.items())))
-        text = "".join(l.replace("  | S fuel =>\n", "  | S fuel =>\n" + pre, 1) if pre else l for l in self.loops)
+        pre = "".join("let %s := %s in\n" % (tn, "[%s]" % "; ".join(zl(c) for c in cs) if cs else "(@nil Z)")
+                      for tn, cs in sorted(list(self.tables.items()) + list(self.itables.items())))
+        text = "".join(l.replace("(*PRE*)", pre) if "(*PRE*)" in l else (l.replace("  | S fuel =>\n", "  | S fuel =>\n" + pre, 1) if pre else l)
+                       for l in (self.loops[i] for i in self.loop_order))
         if self.needs_fuel:
             params.insert(0, "(fuel : nat)")
         text += "Definition %s %s : res (%s) :=\n%s%s.\n" % (self.gname, " ".join(params), self.ret_type(), pre, term)
@@ -880,15 +1341,33 @@ Definition str_erase (s : list Z) (pos n : Z) : res (list Z) :=
 
 
 def asts_of(fn, src):
-    """the definition(s) of fn in src (a FunctionDecl with a body)"""
+    """the definition(s) of fn in src (a FunctionDecl with a body); an overloaded name is selected by SIGNATURE"""
     P.SRC = src
+    if fn in SIGNATURE:
+        from ast_translate64 import clang_docs
+        got, seen = [], set()
+        for d in clang_docs(fn, src):
+            for m in walk(d):
+                if m.get("kind") == "FunctionDecl" and m.get("name") == fn and m.get("id") not in seen \
+                        and any(c.get("kind") == "CompoundStmt" for c in m.get("inner", [])) and re.match(SIGNATURE[fn], qt(m)):
+                    seen.add(m.get("id"))
+                    got.append(m)
+        if len(got) != 1:
+            raise Untranslatable("%d definitions of %s with the expected signature" % (len(got), fn))
+        return [(fn, got[0])]
     return P.asts_of(fn)
 
 
-def run_unit(src, targets, out, prefix, runtime):
+ORACLE_DECLS = {
+    "FormatTM": "Variable ext_FormatTM : list Z -> tmrec -> list Z.   (* FormatTM(&out, fmt, tm): the text it appends to out *)\n",
+    "ToWeek": "Variable ext_ToWeek : fields -> Z -> res Z.             (* ToWeek(civil_day(cs), week_start) *)\n",
+}
+
+
+def run_unit(src, targets, out, prefix, header, known=None, oracle_names=(), open_rec=False):
     P.SRC = src
-    known, done, failed = {}, [], {}
-    parts = [PRELUDE % {"out": os.path.basename(out), "src": src, "fns": ", ".join(targets)} + runtime]
+    known = dict(known or {})
+    done, failed, parts, oracles = [], {}, [], set()
     for fn in targets:
         try:
             defs = asts_of(fn, src)
@@ -898,40 +1377,93 @@ def run_unit(src, targets, out, prefix, runtime):
             continue
         for key, a in defs:
             try:
-                f = OFn(key, a, known, prefix)
+                f = OFn(key, a, known, prefix, oracle_names, open_rec)
                 text, info = f.translate()
                 parts.append(text + "\n")
                 known[key] = info
                 done.append(key)
+                oracles |= f.oracles
             except Untranslatable as e:
                 failed[key] = str(e)
                 parts.append("(* %s: not translated: %s *)\n\n" % (key, e))
-    text = "".join(parts)
+    body = "".join(parts)
+    if oracles:
+        body = "Section Oracles.\n" + "".join(ORACLE_DECLS[o] for o in sorted(oracles)) + "\n" + body + "End Oracles.\n"
+    text = PRELUDE % {"out": os.path.basename(out), "src": src, "fns": ", ".join(targets)} + header + body
     if failed:
         if "--force" in sys.argv:
             open(out, "w").write(text)
-        return {"written": False, "translated": done, "untranslated": failed, "kept_previous": True}
+        return {"written": False, "translated": done, "untranslated": failed, "kept_previous": True}, known
     changed = not os.path.exists(out) or open(out).read() != text
     if changed:
         open(out, "w").write(text)
-    return {"written": changed, "translated": done, "untranslated": failed}
+    return {"written": changed, "translated": done, "untranslated": failed}, known
+
+
+RUNTIME_LOOP = """From CCTZ Require Import Cal PosixImpl FormatImpl.
+From CCTZ Require Export SourceFmtParse SourceFixed SourceFmtOut.
+
+(* ---- inputs and oracles of format() ----
+   What format() obtains from code outside the translated subset is an explicit input of sl_format:
+     al = tz.lookup(tp)   ->  al_cs (the civil time), al_offset, al_abbr (the C string al.abbr points to)
+     tm = ToTM(al)        ->  tm
+     ToUnixSeconds(tp)    ->  ToUnixSeconds_tp
+   FormatTM (strftime) and ToWeek are oracle parameters. *)
+Fixpoint cells (l : list (option Z)) : res (list Z) :=
+  match l with
+  | [] => OK []
+  | None :: _ => Err Uninit
+  | Some c :: r => do s <- cells r ;; OK (c :: s)
+  end.
+(* s.append(p, n) for a char* p into a writable array: n cells from p, all of them written *)
+Definition substr_w (a : list (option Z)) (p n : Z) : res (list Z) :=
+  if p <? 0 then Err Precond
+  else if (0 <=? n) && (p + n <=? alen a) then cells (firstn (Z.to_nat n) (skipn (Z.to_nat p) a)) else Err OOB.
+(* std::string(first, last) over a read-only buffer *)
+Definition substr_pp (b : list Z) (p q : Z) : res (list Z) :=
+  if (p <? 0) || (q <? 0) || (q <? p) then Err Precond else substr b p (q - p).
+(* s.append(p) for a const char* p: the C string at p *)
+Definition cstr_ro (b : list Z) (p : Z) : res (list Z) :=
+  if p <? 0 then Err Precond else if p <=? blen b then OK (c_str (skipn (Z.to_nat p) b)) else Err OOB.
+(* std::isdigit(c): c must be representable as unsigned char, or EOF *)
+Definition isdigit_chk (c : Z) : res bool :=
+  if (-1 <=? c) && (c <=? 255) then OK (is_digit c) else Err Precond.
+
+"""
 
 
 def main():
     coq = os.path.join(os.path.dirname(os.path.abspath(__file__)), "..", "coq")
     outdir = next((a for a in sys.argv[1:] if not a.startswith("--")), coq)
     only = [a[7:] for a in sys.argv[1:] if a.startswith("--only=")]
-    status = {}
+    status, known_by_src = {}, {}
+    keys = [None, "format_cc_out", "format_cc_loop", "format_cc_totm"]
     for i, (src, targets, fname, prefix) in enumerate(UNITS):
-        if only and fname not in only:
+        if only and fname not in only and not (i == 1 and "SourceFmtLoop.v" in only):
             continue
-        runtime = RUNTIME if i == 0 else "From CCTZ Require Export SourceFixed.\n\n"
-        r = run_unit(src, targets, os.path.join(outdir, fname), prefix, runtime)
-        r["file"] = fname
-        if not status:
-            status = r                                  # same shape as the other translators: first unit at top level
+        known, oracle_names = known_by_src.get(src, {}), ()
+        if i == 0:
+            header = RUNTIME
+        elif i == 1:
+            header = "From CCTZ Require Export SourceFixed.\n\n"
+        elif i == 3:
+            header = "From CCTZ Require Import Cal FormatImpl.\nFrom CCTZ Require Source64.\n\n"
         else:
-            status["format_cc_out"] = r
+            header, oracle_names = RUNTIME_LOOP, ("FormatTM", "ToWeek")
+            try:                                        # ParseInt<int>, as gen/ast_translate_ptr.py translates it (SourceFmtParse.v)
+                P.SRC = src
+                for key, a in P.asts_of("ParseInt"):
+                    known = dict(known)
+                    known[key] = P.Fn(key, a, {}, "sf_").translate()[1]
+            except Untranslatable:
+                pass
+        r, known = run_unit(src, targets, os.path.join(outdir, fname), prefix, header, known, oracle_names, open_rec=(i == 2))
+        known_by_src[src] = known
+        r["file"] = fname
+        if keys[i] is None:
+            status.update(r)                            # same shape as the other translators: first unit at top level
+        else:
+            status[keys[i]] = r
     print(json.dumps(status))
 
 
